@@ -375,60 +375,79 @@ def tokenize(parts):
 
 
 def parse_call(toks):
-    """`Name ( arg, ..., kw=arg )` -> (name, positional atoms, keyword atoms) or None."""
-    pos = 0
+    """`Name ( arg, ..., kw=arg )` -> (name, positional values, keyword values) or None.
+    Values: opaque atoms, ("quoted", tokens), nested ("call", name, args, kwargs)."""
+    r = _parse_call_at(toks, 0)
+    if r is None or r[1] != len(toks):
+        return None
+    return r[0]
 
-    def peek():
-        return toks[pos] if pos < len(toks) else (None, None)
-    if peek()[0] != "id":
+
+def _parse_value(toks, pos):
+    if pos >= len(toks):
+        return None
+    t = toks[pos]
+    if t[0] == "atom":
+        return t[1], pos + 1
+    if t[0] == "\"":
+        pos += 1
+        inner = []
+        while pos < len(toks) and toks[pos][0] != "\"":
+            inner.append(toks[pos])
+            pos += 1
+        if pos >= len(toks):
+            return None
+        return ("quoted", inner), pos + 1
+    if t[0] == "id" and pos + 1 < len(toks) and toks[pos + 1][0] == "(":
+        r = _parse_call_at(toks, pos)
+        if r is None:
+            return None
+        (name, args, kwargs), pos2 = r
+        return ("call", name, args, kwargs), pos2
+    return None
+
+
+def _parse_call_at(toks, pos):
+    if pos >= len(toks) or toks[pos][0] != "id":
         return None
     name = toks[pos][1]
     pos += 1
-    if peek()[0] != "(":
+    if pos >= len(toks) or toks[pos][0] != "(":
         return None
     pos += 1
     args, kwargs = [], {}
     while True:
-        if peek()[0] == ")":
+        if pos < len(toks) and toks[pos][0] == ")":
             pos += 1
             break
         kw = None
-        if peek()[0] == "id" and pos + 1 < len(toks) and toks[pos + 1][0] == "=":
+        if pos + 1 < len(toks) and toks[pos][0] == "id" and toks[pos + 1][0] == "=":
             kw = toks[pos][1]
             pos += 2
-        t = peek()
-        if t[0] == "atom":
-            val = t[1]
-            pos += 1
-        elif t[0] == "\"":
-            # "…": a string literal holding one name atom or literal text
-            pos += 1
-            inner = []
-            while peek()[0] not in ("\"", None):
-                inner.append(toks[pos])
-                pos += 1
-            if peek()[0] != "\"":
-                return None
-            pos += 1
-            val = ("quoted", inner)
-        else:
+        elif pos + 1 < len(toks) and toks[pos][0] == "atom" and isinstance(toks[pos][1], tuple) \
+                and toks[pos][1][0] == "name" and toks[pos + 1][0] == "=":
+            kw = ("name", toks[pos][1][1])        # a symbolic identifier used as keyword
+            pos += 2
+        r = _parse_value(toks, pos)
+        if r is None:
             return None
+        val, pos = r
         if kw is None:
             if kwargs:
                 return None
             args.append(val)
         else:
+            if kw in kwargs:
+                return None
             kwargs[kw] = val
-        if peek()[0] == ",":
+        if pos < len(toks) and toks[pos][0] == ",":
             pos += 1
             continue
-        if peek()[0] == ")":
+        if pos < len(toks) and toks[pos][0] == ")":
             pos += 1
             break
         return None
-    if pos != len(toks):
-        return None
-    return name, args, kwargs
+    return (name, args, kwargs), pos
 
 
 def atom_denotes(I, atom, value):
@@ -436,6 +455,9 @@ def atom_denotes(I, atom, value):
     if isinstance(value, Obj):
         return isinstance(atom, tuple) and atom[0] == "print" and atom[1] is value
     if isinstance(value, (SName, str)):
+        # a variable may be printed as Variable("name"): the constructors accept either
+        if isinstance(atom, tuple) and atom[0] == "call" and atom[1] == "Variable" and len(atom[2]) == 1 and not atom[3]:
+            atom = atom[2][0]
         if not (isinstance(atom, tuple) and atom[0] == "quoted"):
             return False
         inner = atom[1]
